@@ -672,6 +672,25 @@ class MonC13(Monitor):
                                         f"{name} after measure() changed the timeline"
                                         + ("" if raised is None else f" (and raised {type(raised).__name__})"),
                                         op=name, raised=raised is not None))
+            # ... and a measurement made before the first variable is used still counts afterwards
+            try:
+                var = seq.declare_variable("after_measure_probe", dtype=int)
+                accepted = []
+                for name, fn in (("delay(var)", lambda: seq.delay(var, nm)),
+                                 ("add(var)", lambda: seq.add(Pulse.ConstantPulse(var, 0.0, 0.0, 0.0), nm)),
+                                 ("measure", lambda: seq.measure(basis_m))):
+                    basis_m = "XY" if seq._in_xy else next(iter(seq._basis_ref), None)
+                    try:
+                        fn()
+                        accepted.append(name)
+                    except Exception:  # noqa: BLE001
+                        pass
+                if accepted or not seq.is_measured():
+                    fails.append(self.F("measured-forgotten-when-parametrized",
+                                        f"after measure() and the first use of a variable: accepted {accepted}, "
+                                        f"is_measured()={seq.is_measured()}", op="measure+variable"))
+            except Exception:  # noqa: BLE001
+                pass
         fails += self.parametrized_probe(ls)
         return fails
 
